@@ -881,3 +881,57 @@ package websocket
 //@     emits {C04,C16} [HandleMsg(m, _, respond, msg)]
 //@   complete behaviours
 //@   disjoint behaviours
+
+// ---------------------------------------------------------------------------------------------
+// Signed latency requests (C18)
+// ---------------------------------------------------------------------------------------------
+
+//@ func (*websocket.RealtimeHandler).HandleSignedLatency
+//@   property C18, C04
+//@   let req = decoded(msg, hagallpb.SignedLatencyRequest)
+//@   let P = h.currentParticipant
+//@   requires wfHandler(h) && respond != nil
+//@   requires h.currentParticipant != nil ==> h.currentParticipant.SignedLatency != nil
+//@   behaviour undecodable:
+//@     assumes !decode_ok(msg)
+//@     ensures result != nil && unchanged_world()
+//@     emits []
+//@   behaviour not_joined:
+//@     assumes decode_ok(msg) && P == nil
+//@     ensures {C18,C04} result == nil && unchanged_world()
+//@     emits {C18,C04} [send(respond, hagallpb.ErrorResponse{Type: hagallpb.MsgType_MSG_TYPE_ERROR_RESPONSE, RequestId: req.RequestId, Code: hagallpb.ErrorCode_ERROR_CODE_UNAUTHORIZED})]
+//@   behaviour bad_count:
+//@     assumes decode_ok(msg) && P != nil && (req.IterationCount < 3 || req.IterationCount > 50)
+//@     ensures {C18,C04} result == nil && unchanged_world()
+//@     emits {C18,C04} [send(respond, hagallpb.ErrorResponse{Type: hagallpb.MsgType_MSG_TYPE_ERROR_RESPONSE, RequestId: req.RequestId, Code: hagallpb.ErrorCode_ERROR_CODE_BAD_REQUEST})]
+//@   behaviour no_wallet:
+//@     assumes decode_ok(msg) && P != nil && req.IterationCount >= 3 && req.IterationCount <= 50 && req.WalletAddress == ""
+//@     ensures {C18,C04} result == nil && unchanged_world()
+//@     emits {C18,C04} [send(respond, hagallpb.ErrorResponse{Type: hagallpb.MsgType_MSG_TYPE_ERROR_RESPONSE, RequestId: req.RequestId, Code: hagallpb.ErrorCode_ERROR_CODE_BAD_REQUEST})]
+//@   behaviour started:
+//@     assumes decode_ok(msg) && P != nil && req.IterationCount >= 3 && req.IterationCount <= 50 && req.WalletAddress != ""
+//@     ensures {C18,C04} result == nil
+//@     emits {C18} [Start(P.SignedLatency, h.PrivateKey, respond, req.RequestId, req.IterationCount, h.currentSession.SessionUUID, h.clientID, req.WalletAddress)]
+//@   complete behaviours
+//@   disjoint behaviours
+
+//@ func (*websocket.RealtimeHandler).HandlePingResponse
+//@   property C18, C04
+//@   let req = decoded(msg, hagallpb.Response)
+//@   let P = h.currentParticipant
+//@   requires wfHandler(h) && respond != nil
+//@   requires h.currentParticipant != nil ==> h.currentParticipant.SignedLatency != nil && (req.RequestId in h.currentParticipant.SignedLatency.PingRequests ==> h.currentParticipant.SignedLatency.sender != nil) && len(h.currentParticipant.SignedLatency.PingRequests) < 4294967296 && forall k: uint32 :: pending(h.currentParticipant.SignedLatency, k) ==> h.currentParticipant.SignedLatency.Iteration >= 1
+//@   behaviour undecodable:
+//@     assumes !decode_ok(msg)
+//@     ensures result != nil && unchanged_world()
+//@     emits []
+//@   behaviour not_joined:
+//@     assumes decode_ok(msg) && P == nil
+//@     ensures {C18,C04} result == nil && unchanged_world()
+//@     emits {C18,C04} [send(respond, hagallpb.ErrorResponse{Type: hagallpb.MsgType_MSG_TYPE_ERROR_RESPONSE, RequestId: req.RequestId, Code: hagallpb.ErrorCode_ERROR_CODE_UNAUTHORIZED})]
+//@   behaviour forwarded:
+//@     assumes decode_ok(msg) && P != nil
+//@     ensures {C18} result == nil
+//@     emits {C18,C04} [OnPing(P.SignedLatency, req.RequestId); atleastwhen !pending(P.SignedLatency, req.RequestId) =>> send(respond, hagallpb.ErrorResponse{Type: hagallpb.MsgType_MSG_TYPE_ERROR_RESPONSE, RequestId: req.RequestId, Code: hagallpb.ErrorCode_ERROR_CODE_INTERNAL_SERVER_ERROR})]
+//@   complete behaviours
+//@   disjoint behaviours
